@@ -203,13 +203,12 @@ def canon_text(text, length, source):
     if op == "nop" or (op == "xchg" and rest.replace(" ", "") == "ax,ax"):
         return ("nop",)
     opsrc = [parse_operand(o, addr32) for o in split_operands(rest)] if rest else []
-    # far branches through memory: objdump prints 'jmp FWORD PTR [..]' / LLVM 'ljmp'
-    if op in ("jmp", "call") and opsrc and opsrc[0][0] == "m" and opsrc[0][1] in (48, 80):
+    # far branches through memory. LLVM prints 'ljmp [m]' / 'jmp [m]' (no size) for FF /5, libopcodes
+    # 'jmp DWORD|FWORD PTR [m]' (a near indirect branch is always 'qword ptr' in 64-bit mode).
+    if op in ("jmp", "call") and len(opsrc) == 1 and opsrc[0][0] == "m" and (
+            (source == "llvm" and opsrc[0][1] is None) or (source == "bfd" and opsrc[0][1] in (32, 48, 80))):
         op += "f"
     if op in ("jmpf", "callf"):
-        osz = 64 if "rex.w" in flags else (16 if "data16" in flags else 32)
-        if source == "llvm":
-            osz = None
         opsrc = [("m", None) + o[2:] if o[0] == "m" else o for o in opsrc]
         return (op,) + tuple(opsrc)
     is_rel = (op in BRANCH_REL or (op.startswith("j") and op[1:] in CC)) and opsrc and opsrc[0][0] == "i"
@@ -384,3 +383,16 @@ def disp_diff(e, g):
     if e == 0:
         return "spurious"
     return "other"
+
+
+def far_operand_size(h):
+    """operand size (16/32/64) of a far indirect branch, read off the prefixes of the raw encoding"""
+    b = bytes.fromhex(h)
+    i = 0
+    o16 = False
+    while i < len(b) and b[i] in (0x66, 0x67, 0xf2, 0xf3, 0x2e, 0x3e, 0x26, 0x36, 0x64, 0x65):
+        o16 = o16 or b[i] == 0x66
+        i += 1
+    if i < len(b) and 0x40 <= b[i] <= 0x4f and (b[i] & 8):
+        return 64
+    return 16 if o16 else 32
